@@ -3,7 +3,7 @@ use crate::util::Rng;
 use serde_json::Value;
 
 pub const LIB_NAME: &str = "m2";
-pub const LIB_TEXT: &str = "pub fn a(x) { x }\npub fn c() { 1 }\nfn p() { 2 }\npub type A { A(a: Int) C }\npub const k = 1\npub type T { W }\n";
+pub const LIB_TEXT: &str = "pub fn a(x) { x }\npub fn c() { 1 }\nfn p() { 2 }\npub type A { A(a: Int) C }\npub const k = 1\npub type T { W }\ntype P { Q }\n";
 
 /// (declaration id in the specification, byte offset of the declaring name token in LIB_TEXT, length)
 pub fn lib_decls() -> Vec<(u64, usize, usize)> {
